@@ -10,9 +10,11 @@ def main():
     print("property:", d["property"]); print("what:", d["what"])
     eng = r.get("engine")
     if eng == "E3":
-        mod = importlib.import_module(r["module"])
+        modname, _, fn = r["module"].partition(":")
+        mod = importlib.import_module(modname)
         from vf import e3
-        failed, exc = e3.replay_e3(mod.build, r["item"], r["inputs"])
+        build = {"": "build", "kernel": "kernel_build", "sympos": "sympos_build"}.get(fn, "build")
+        failed, exc = e3.replay_e3(getattr(mod, build), r["item"], r["inputs"])
         print("inputs:", r["inputs"], "-> failed obligations:", failed, "exception:", repr(exc))
         sys.exit(1 if (failed or exc is not None) else 0)
     if eng == "E1":
@@ -20,6 +22,15 @@ def main():
         ok, info = e1.replay(r)
         print(info)
         sys.exit(0 if ok else 1)
+    if eng == "kernel":
+        from vf import swzkernel as K
+        cfg = r["cfg"]
+        if len(cfg) == 4:
+            v, m, n, dw = K.swizzle_forces_target(*cfg)
+        else:
+            v, m = K.dist_target_equals(*cfg)
+        print("configuration", cfg, "->", v, m)
+        sys.exit(1 if v == "sat" else 0)
     if eng == "script":
         import subprocess
         p = subprocess.run([sys.executable, "-c", r["source"]], capture_output=True, text=True)
